@@ -21,6 +21,10 @@ P = {
          'Theorems for all subsets of scheduled parameters, all factor functions, all histories of scheduler steps (explicit or implicit) interleaved with preconditioner steps: each scheduled constant parameter is the left fold of old * f(step used) (truncated toward zero for the two intervals) of its own function only, unscheduled/callable parameters and the step count are untouched, construction is refused iff a scheduled parameter is callable; over Q: exp_decay = min(1 - 1/max(k,1), cap), within [0, cap], non-decreasing, 0 at steps 0 and 1, error for cap <= 0. Tie: random subsets with dyadic step-revealing factor tables, histories with real preconditioner.step() calls, all six properties read back after every call and compared exactly; exp_decay compared bit-for-bit with the binary64 model evaluated inside Coq.',
          'Coq kernel; PrimFloat primitives (float reading of exp_decay only); extraction + driver; IEEE-rounded monotonicity is checked on a sampled range, not proved.',
          'DESIGN.md §4 C19'),
+ 'C16': (True, 'Coq proof about a model of named_modules (memoised pre-order walk) and register_modules for every module graph and every pattern outcome table + correspondence on random module trees against an independent walk',
+         'Theorems for all graphs (incl. shared instances), all skip outcome tables, all roots: the registered list is exactly the walked modules that are leaves, linear or conv2d (linear first), with all parameters requiring gradients and neither qualified name nor class name matched; every module instance occurs at most once in the walk and is registered at most once; exactly the registered modules get one forward-pre and one backward hook. Tie: random torch.nn trees (containers, shared instances, subclasses, unsupported/parameter-free/frozen leaves, None children, bare-leaf root, GPT-NeoX class-name variant) x random pattern lists; named_modules order, registered (name, module, kind) and hook counts of every module compared with the extracted model; independent oracle per the property text.',
+         'Coq kernel; extraction + driver; re.search outcomes are inputs (regex engine is an oracle); completeness of the walk w.r.t. reachability is not proved (compared with torch on every tree); DeepSpeed stand-in for the GPT-NeoX import. Closed under the global context.',
+         'DESIGN.md §4 C16'),
  'C14': (True, 'Coq proof (induction over rows; any element type) + exhaustive-n correspondence of extracted model with get_triu/fill_triu + simdist guard runs',
          'Theorems for every n and element type: pack/unpack round trip, NoDup/completeness/length n(n+1)/2 of the index list, symmetry of any unpacked matrix, symmetric==dense communication for any elementwise combine, rejection of non-square shapes with no communication. Tie: extracted triu_idx / fill_index_matrix equal torch behaviour for every n<=128 (quick; 512 thorough), bit-exact round trips in 4 dtypes x 3 layouts, guard + element counts of the three communication functions under simdist.',
          'Coq kernel; extraction (ExtrOcamlBasic) + ocaml/driver.ml; simdist; torch.triu_indices/advanced indexing compared not verified. Closed under the global context.',
